@@ -1,26 +1,14 @@
 package c05
 
 import (
-	"errors"
 	"fmt"
-	"sort"
 	"strings"
 	"testing"
 
-	"github.com/ipfs/go-cid"
-	"github.com/ipld/go-ipld-prime/datamodel"
-	"github.com/ipld/go-ipld-prime/node/basicnode"
-	"github.com/libp2p/go-libp2p/core/peer"
 	"pgregory.net/rapid"
 
-	"github.com/ipfs/go-graphsync"
-	gsimpl "github.com/ipfs/go-graphsync/impl"
-	gsmsg "github.com/ipfs/go-graphsync/message"
-
-	"verif/harness/dagen"
 	"verif/harness/pbt"
-	"verif/harness/scen"
-	"verif/harness/sim"
+	"verif/harness/scen/resplife"
 )
 
 var run = pbt.Init("C05")
@@ -28,338 +16,59 @@ var outerT *testing.T
 
 func TestMain(m *testing.M) { pbt.Main(m, run) }
 
-type ReqSpec struct {
-	Peer    int    `json:"peer"`     // 0 or 1
-	ReqHook string `json:"req_hook"` // validate novalidate error pause
-	PauseAt int    `json:"pause_at"` // outgoing block hook pauses at this block index (0 = never)
-	ErrAt   int    `json:"err_at"`   // outgoing block hook errors at this block index
-	ExtAt   int    `json:"ext_at"`   // outgoing block hook sends extension data at this index
-}
-
-type Op struct {
-	K   string `json:"k"` // new cancelmsg updatemsg apipause apiunpause apicancel apiupdate disconnect release
-	R   int    `json:"r"`
-	Ext string `json:"ext,omitempty"`
-}
-
-type Case struct {
-	DAG       dagen.DAG  `json:"dag"`
-	Sel       *dagen.Sel `json:"sel"`
-	Reqs      []ReqSpec  `json:"reqs"`
-	Ops       []Op       `json:"ops"`
-	FailAt    []int      `json:"fail_at"` // indices of the responder's SendMsg attempts that fail
-	Retries   int        `json:"retries"`
-	ConnFail  []int      `json:"conn_fail"`  // indices of connect attempts that fail
-	GateAt    int        `json:"gate_at"`    // n-th storage read blocks until a release op (0 = none)
-	EndCancel bool       `json:"end_cancel"` // at the end paused responses are cancelled (else unpaused)
-}
-
 const (
-	extUnpause = "test/unpause"
-	extError   = "test/error"
+	kCancelNetErr = "C05-cancelled-then-network-error"
+	kUpdAfterDone = "C05-update-after-completion-then-network-error"
 )
 
-func gen(t *rapid.T) Case {
-	c := Case{DAG: dagen.GenDAG(t, dagen.GenOpts{MaxBlocks: run.N(8, 16), MaxDepth: 2}), Sel: dagen.RecAll(int64(rapid.SampledFrom([]int{-1, 3, 10}).Draw(t, "lim")))}
-	n := rapid.IntRange(1, 4).Draw(t, "nreqs")
-	for i := 0; i < n; i++ {
-		r := ReqSpec{Peer: rapid.IntRange(0, 1).Draw(t, "peer"), ReqHook: rapid.SampledFrom([]string{"validate", "validate", "validate", "novalidate", "error", "pause"}).Draw(t, "reqhook")}
-		if rapid.IntRange(0, 2).Draw(t, "haspause") == 0 {
-			r.PauseAt = rapid.IntRange(1, 4).Draw(t, "pauseat")
-		}
-		if rapid.IntRange(0, 5).Draw(t, "haserr") == 0 {
-			r.ErrAt = rapid.IntRange(1, 4).Draw(t, "errat")
-		}
-		if rapid.IntRange(0, 4).Draw(t, "hasext") == 0 {
-			r.ExtAt = rapid.IntRange(1, 4).Draw(t, "extat")
-		}
-		c.Reqs = append(c.Reqs, r)
-	}
-	// ops: every request gets a "new"; other ops are sprinkled around
-	var ops []Op
-	for i := 0; i < n; i++ {
-		ops = append(ops, Op{K: "new", R: i})
-		m := rapid.IntRange(0, 3).Draw(t, "nops")
-		for j := 0; j < m; j++ {
-			op := Op{K: rapid.SampledFrom([]string{"cancelmsg", "updatemsg", "apipause", "apiunpause", "apicancel", "apiupdate", "disconnect", "release", "cancelmsg", "updatemsg"}).Draw(t, "opk"), R: rapid.IntRange(0, n-1).Draw(t, "opr")}
-			op.Ext = rapid.SampledFrom([]string{extUnpause, extError, "other"}).Draw(t, "opext")
-			ops = append(ops, op)
-		}
-	}
-	c.Ops = ops
-	c.FailAt = rapid.SliceOfNDistinct(rapid.IntRange(0, 12), 0, 3, rapid.ID[int]).Draw(t, "failat")
-	c.Retries = rapid.IntRange(1, 2).Draw(t, "retries")
-	if rapid.IntRange(0, 5).Draw(t, "hasconnfail") == 0 {
-		c.ConnFail = rapid.SliceOfNDistinct(rapid.IntRange(0, 6), 1, 2, rapid.ID[int]).Draw(t, "connfail")
-	}
-	if rapid.IntRange(0, 2).Draw(t, "hasgate") == 0 {
-		c.GateAt = rapid.IntRange(1, 6).Draw(t, "gateat")
-	}
-	c.EndCancel = rapid.Bool().Draw(t, "endcancel")
-	return c
-}
+func gen(t *rapid.T) resplife.Case { return resplife.Gen(t, run.N(8, 16)) }
 
-var peers = []peer.ID{scen.ReqID, scen.ThirdID}
-
-func reqID(i int) graphsync.RequestID {
-	b := []byte("c05-request-id-0")
-	b[15] = byte('0' + i)
-	id, _ := graphsync.ParseRequestID(b)
-	return id
-}
-
-func judge(c Case) *pbt.Verdict {
+func judge(c resplife.Case) *pbt.Verdict {
 	v := &pbt.Verdict{}
-	b, err := c.DAG.Build()
-	if err != nil {
+	r := resplife.Run(outerT, c)
+	if r.Skip {
 		v.Skip = true
 		return v
 	}
-	type evs struct {
-		completed []graphsync.ResponseStatusCode
-		cancelled int
-		neterr    int
+	if r.Panic != "" {
+		return v.Failf("panic: %s", r.Panic)
 	}
-	events := map[graphsync.RequestID]*evs{}
-	ev := func(id graphsync.RequestID) *evs {
-		if events[id] == nil {
-			events[id] = &evs{}
-		}
-		return events[id]
-	}
-	idx := map[graphsync.RequestID]int{}
-	for i := range c.Reqs {
-		idx[reqID(i)] = i
-	}
-	received := map[int]bool{}
-	liveHits := 0
-	var fail string
-	var finalStates, finalTasks, protected []string
-	var allocated uint64
-	wireTerminal := map[graphsync.RequestID][]graphsync.ResponseStatusCode{}
-	ro := sim.Run(outerT, func(w *sim.World) {
-		store := sim.NewStore(b.Data, true)
-		gate := make(chan struct{})
-		gateOpen := false
-		reads := 0
-		store.ReadHook = func(cc cid.Cid, _ datamodel.Path) error {
-			reads++
-			if c.GateAt > 0 && reads == c.GateAt && !gateOpen {
-				<-gate
-			}
-			return nil
-		}
-		failSet := map[int]bool{}
-		for _, i := range c.FailAt {
-			failSet[i] = true
-		}
-		sendN := 0
-		w.Net.SendPolicy = func(from, to peer.ID, n int, m gsmsg.GraphSyncMessage) sim.SendOutcome {
-			if from != scen.RespID {
-				return sim.SendOK
-			}
-			k := sendN
-			sendN++
-			if failSet[k] {
-				return sim.SendFail
-			}
-			return sim.SendOK
-		}
-		connN := 0
-		connFail := map[int]bool{}
-		for _, i := range c.ConnFail {
-			connFail[i] = true
-		}
-		w.Net.ConnectPolicy = func(from, to peer.ID) error {
-			if from != scen.RespID {
-				return nil
-			}
-			k := connN
-			connN++
-			if connFail[k] {
-				return errors.New("sim: connect failed")
-			}
-			return nil
-		}
-		rs := w.AddInstance(scen.RespID, store, gsimpl.MessageSendRetries(c.Retries))
-		for _, p := range peers {
-			w.AddScripted(p)
-		}
-		rs.GS.RegisterIncomingRequestHook(func(p peer.ID, rd graphsync.RequestData, ha graphsync.IncomingRequestHookActions) {
-			i, ok := idx[rd.ID()]
-			if !ok {
-				return
-			}
-			switch c.Reqs[i].ReqHook {
-			case "validate":
-				ha.ValidateRequest()
-			case "error":
-				ha.ValidateRequest()
-				ha.TerminateWithError(errors.New("request hook says no"))
-			case "pause":
-				ha.ValidateRequest()
-				ha.PauseResponse()
-			}
-		})
-		rs.GS.RegisterOutgoingBlockHook(func(p peer.ID, rd graphsync.RequestData, bd graphsync.BlockData, ha graphsync.OutgoingBlockHookActions) {
-			i, ok := idx[rd.ID()]
-			if !ok {
-				return
-			}
-			if int(bd.Index()) == c.Reqs[i].ExtAt {
-				ha.SendExtensionData(graphsync.ExtensionData{Name: "test/blockext", Data: basicnode.NewString("hello")})
-			}
-			if int(bd.Index()) == c.Reqs[i].ErrAt {
-				ha.TerminateWithError(errors.New("block hook says no"))
-			}
-			if int(bd.Index()) == c.Reqs[i].PauseAt {
-				ha.PauseResponse()
-			}
-		})
-		rs.GS.RegisterRequestUpdatedHook(func(p peer.ID, rd graphsync.RequestData, upd graphsync.RequestData, ha graphsync.RequestUpdatedHookActions) {
-			if _, ok := upd.Extension(extUnpause); ok {
-				ha.UnpauseResponse()
-			}
-			if _, ok := upd.Extension(extError); ok {
-				ha.TerminateWithError(errors.New("update hook says no"))
-			}
-		})
-		rs.GS.RegisterCompletedResponseListener(func(p peer.ID, rd graphsync.RequestData, st graphsync.ResponseStatusCode) {
-			ev(rd.ID()).completed = append(ev(rd.ID()).completed, st)
-		})
-		rs.GS.RegisterRequestorCancelledListener(func(p peer.ID, rd graphsync.RequestData) { ev(rd.ID()).cancelled++ })
-		rs.GS.RegisterNetworkErrorListener(func(p peer.ID, rd graphsync.RequestData, err error) { ev(rd.ID()).neterr++ })
-
-		send := func(from peer.ID, q gsmsg.GraphSyncRequest) {
-			if err := w.Net.Inject(from, scen.RespID, gsmsg.NewMessage(map[graphsync.RequestID]gsmsg.GraphSyncRequest{q.ID(): q}, nil, nil)); err != nil {
-				panic(err)
-			}
-			w.Quiesce()
-		}
-		isLive := func(i int) bool {
-			_, ok := rs.Impl.PeerState(peers[c.Reqs[i].Peer]).IncomingState.RequestStates[reqID(i)]
-			return ok
-		}
-		for _, op := range c.Ops {
-			i := op.R % len(c.Reqs)
-			id := reqID(i)
-			p := peers[c.Reqs[i].Peer]
-			if op.K != "new" && received[i] && isLive(i) {
-				liveHits++
-			}
-			switch op.K {
-			case "new":
-				if received[i] {
-					continue
-				}
-				received[i] = true
-				send(p, gsmsg.NewRequest(id, b.Root, c.Sel.Node(), graphsync.Priority(i)))
-			case "cancelmsg":
-				if received[i] {
-					send(p, gsmsg.NewCancelRequest(id))
-				}
-			case "updatemsg":
-				if received[i] {
-					send(p, gsmsg.NewUpdateRequest(id, graphsync.ExtensionData{Name: graphsync.ExtensionName(op.Ext), Data: basicnode.NewString("x")}))
-				}
-			case "apipause":
-				_ = rs.GS.Pause(w.Ctx, id)
-				w.Quiesce()
-			case "apiunpause":
-				_ = rs.GS.Unpause(w.Ctx, id)
-				w.Quiesce()
-			case "apicancel":
-				_ = rs.GS.Cancel(w.Ctx, id)
-				w.Quiesce()
-			case "apiupdate":
-				_ = rs.GS.SendUpdate(w.Ctx, id, graphsync.ExtensionData{Name: "test/apiupdate", Data: basicnode.NewString("u")})
-				w.Quiesce()
-			case "disconnect":
-				w.Net.Disconnect(scen.RespID, p)
-				w.Quiesce()
-			case "release":
-				if !gateOpen {
-					gateOpen = true
-					close(gate)
-				}
-				w.Quiesce()
-			}
-		}
-		if !gateOpen {
-			gateOpen = true
-			close(gate)
-		}
-		w.Quiesce()
-		// premise: every paused response is eventually unpaused or cancelled
-		for round := 0; round < 6; round++ {
-			any := false
-			for i := range c.Reqs {
-				st, ok := rs.Impl.PeerState(peers[c.Reqs[i].Peer]).IncomingState.RequestStates[reqID(i)]
-				if ok && st == graphsync.Paused {
-					any = true
-					if c.EndCancel {
-						_ = rs.GS.Cancel(w.Ctx, reqID(i))
-					} else {
-						_ = rs.GS.Unpause(w.Ctx, reqID(i))
-					}
-					w.Quiesce()
-				}
-			}
-			if !any {
-				break
-			}
-		}
-		w.Quiesce()
-		for _, p := range peers {
-			ps := rs.Impl.PeerState(p).IncomingState
-			for id, st := range ps.RequestStates {
-				finalStates = append(finalStates, fmt.Sprintf("%s:%s=%s", p, id, st))
-			}
-			for _, id := range ps.TaskQueueState.Active {
-				finalTasks = append(finalTasks, fmt.Sprintf("%s:active:%s", p, id))
-			}
-			for _, id := range ps.TaskQueueState.Pending {
-				finalTasks = append(finalTasks, fmt.Sprintf("%s:pending:%s", p, id))
-			}
-		}
-		protected = rs.End.CM.Protected()
-		allocated = rs.GS.Stats().OutgoingResponses.TotalAllocatedAllPeers
-		for _, e := range w.Net.Sent {
-			if e.From != scen.RespID {
-				continue
-			}
-			for _, r := range e.Msg.Responses() {
-				if r.Status() >= 20 {
-					wireTerminal[r.RequestID()] = append(wireTerminal[r.RequestID()], r.Status())
-				}
-			}
-		}
-	})
-	if ro.Panic != "" {
-		return v.Failf("panic: %s", ro.Panic)
-	}
-	sort.Strings(finalStates)
 	outcomes := map[string]bool{}
+	var fail string
+	var tolerated []string
 	for i := range c.Reqs {
-		if !received[i] {
+		if !r.Received[i] {
 			continue
 		}
-		id := reqID(i)
-		e := ev(id)
-		C, X, N := len(e.completed), e.cancelled, e.neterr
+		e := r.Events[i]
+		C, X, N := len(e.Completed), e.Cancelled, e.NetErr
+		if X > 0 && r.CancelMsgs[i] == 0 {
+			fail = fmt.Sprintf("request %d reported as cancelled by the requestor, which never sent a cancel for it", i)
+			break
+		}
 		switch {
 		case C == 1 && X == 0 && N == 0:
 			outcomes["completed"] = true
-			wt := wireTerminal[id]
-			if len(wt) == 0 || wt[len(wt)-1] != e.completed[0] {
-				fail = fmt.Sprintf("request %d reported completed with %s but the terminal status on the wire is %v", i, e.completed[0], wt)
+			wt := r.WireTerminal[i]
+			if len(wt) == 0 || wt[len(wt)-1] != e.Completed[0] {
+				fail = fmt.Sprintf("request %d reported completed with %s but the terminal statuses sent on the wire are %v", i, e.Completed[0], wt)
 			}
-		case C == 0 && X == 1:
+		case C == 0 && X == 1 && N == 0:
 			outcomes["cancelled"] = true
+		case C == 0 && X == 1 && N >= 1 && run.Known(kCancelNetErr):
+			// known finding: a message the cancelled request was attached to failed afterwards and the
+			// network-error listener was told about a request already reported cancelled
+			outcomes["cancelled"] = true
+			tolerated = append(tolerated, kCancelNetErr)
+		case C == 1 && X == 0 && N >= 1 && r.UpdOnComplete[i] && run.Known(kUpdAfterDone):
+			// known finding: SendUpdate on a response that only waits for its final message attaches the
+			// request to a later message; that message failing is reported for a completed request
+			outcomes["completed"] = true
+			tolerated = append(tolerated, kUpdAfterDone)
 		case C == 0 && X == 0 && N >= 1:
 			outcomes["network-error"] = true
 		default:
-			fail = fmt.Sprintf("request %d (hook %s) did not reach exactly one outcome: completed=%v cancelled=%d network-errors=%d; states=%v", i, c.Reqs[i].ReqHook, e.completed, X, N, finalStates)
+			fail = fmt.Sprintf("request %d (hook %s) did not reach exactly one outcome: completed=%v cancelled=%d network-errors=%d; final states=%v", i, c.Reqs[i].ReqHook, e.Completed, X, N, r.FinalStates)
 		}
 		if fail != "" {
 			break
@@ -368,35 +77,51 @@ func judge(c Case) *pbt.Verdict {
 	for o := range outcomes {
 		v.Label("outcome-" + o)
 	}
-	if liveHits > 0 {
+	for l := range r.Labels {
+		v.Label(l)
+	}
+	for _, k := range tolerated {
+		run.Count("tolerated:"+k, 1)
+		v.Label("known-finding-pattern-tolerated")
+	}
+	if r.LiveHits > 0 {
 		v.Label("control-or-fault-hits-live-response")
 	}
-	v.NonTrivial = liveHits > 0 || len(c.FailAt) > 0
+	if r.SendFaults > 0 {
+		v.Label("send-or-connect-fault-happened")
+	}
+	if r.StalledSends > 0 {
+		v.Label("send-stalled")
+	}
+	v.NonTrivial = r.LiveHits > 0 || r.SendFaults > 0 || r.StalledSends > 0
 	if fail != "" {
 		return v.Failf("%s", fail)
 	}
-	if len(finalStates) > 0 {
-		return v.Failf("responder still lists request state after every request reached an outcome: %v", finalStates)
+	if len(r.FinalStates) > 0 {
+		return v.Failf("responder still lists request state after every request reached an outcome: %v", r.FinalStates)
 	}
-	if len(finalTasks) > 0 {
-		return v.Failf("task queue still holds tasks: %v", finalTasks)
+	if len(r.FinalTasks) > 0 {
+		return v.Failf("task queue still holds tasks: %v", r.FinalTasks)
 	}
-	for _, p := range protected {
+	for _, p := range r.Protected {
 		if strings.Contains(p, "|") {
-			return v.Failf("connection protection not released: %v", protected)
+			return v.Failf("connection protection not released: %v", r.Protected)
 		}
 	}
-	if allocated != 0 {
-		return v.Failf("%d bytes still allocated for responses at the end", allocated)
+	if r.Allocated != 0 || r.PendingAlloc != 0 {
+		return v.Failf("%d bytes still allocated (%d pending) for responses at the end", r.Allocated, r.PendingAlloc)
+	}
+	if r.Hung {
+		v.Label("bubble-did-not-exit")
 	}
 	return v
 }
 
-var def = pbt.Def[Case]{Name: "responder-retirement", Gen: gen, Run: judge}
+var def = pbt.Def[resplife.Case]{Name: "responder-retirement", Gen: gen, Run: judge}
 
 func TestProp(t *testing.T) {
 	outerT = t
-	pbt.Check(t, run, def, 2500, 60000)
+	pbt.Check(t, run, def, 3000, 80000)
 }
 
 func TestReplay(t *testing.T) {
